@@ -2208,6 +2208,26 @@ impl BytecodeVM {
         self.handle_error_with_trampoline_unwind(interp, JsError::ThrownValue { guarded })
     }
 
+    /// Remember on a namespace object that one of its blocks exported `name`: later blocks
+    /// resolve that identifier to the object's property (see BindNamespaceExports)
+    fn record_namespace_export(interp: &mut Interpreter, ns_obj: &Gc<JsObject>, name: &JsString) {
+        let exported_key = PropertyKey::String(interp.intern("__ns_exports__"));
+        let mut list = match ns_obj.borrow().get_own_property(&exported_key) {
+            Some(prop) => match &prop.value {
+                JsValue::String(list) => list.to_string(),
+                _ => String::new(),
+            },
+            None => String::new(),
+        };
+        if !list.split('\0').any(|known| known == name.as_str()) {
+            list.push('\0');
+            list.push_str(name.as_str());
+            ns_obj
+                .borrow_mut()
+                .set_internal_slot(exported_key, JsValue::String(JsString::from(list)));
+        }
+    }
+
     /// Execute a single opcode
     fn execute_op(&mut self, interp: &mut Interpreter, op: Op) -> Result<OpResult, JsError> {
         match op {
@@ -2738,7 +2758,19 @@ impl BytecodeVM {
                     .ok_or_else(|| JsError::internal_error("Invalid variable name constant"))?;
                 if let JsValue::Object(ns_obj) = self.get_reg(ns) {
                     let ns_obj = ns_obj.cheap_clone();
+                    Self::record_namespace_export(interp, &ns_obj, &name);
                     interp.env_define_namespace_export(name, ns_obj);
+                }
+                Ok(OpResult::Continue)
+            }
+
+            Op::RecordNamespaceExport { ns, name } => {
+                let name = self
+                    .get_string_constant(name)
+                    .ok_or_else(|| JsError::internal_error("Invalid variable name constant"))?;
+                if let JsValue::Object(ns_obj) = self.get_reg(ns) {
+                    let ns_obj = ns_obj.cheap_clone();
+                    Self::record_namespace_export(interp, &ns_obj, &name);
                 }
                 Ok(OpResult::Continue)
             }
@@ -2746,15 +2778,22 @@ impl BytecodeVM {
             Op::BindNamespaceExports { ns } => {
                 if let JsValue::Object(ns_obj) = self.get_reg(ns) {
                     let ns_obj = ns_obj.cheap_clone();
-                    let names: Vec<JsString> = ns_obj
-                        .borrow()
-                        .properties
-                        .iter()
-                        .filter_map(|(key, prop)| match key {
-                            PropertyKey::String(s) if prop.enumerable() => Some(s.cheap_clone()),
-                            _ => None,
-                        })
-                        .collect();
+                    // Only what earlier blocks of the namespace exported: the other properties
+                    // of a function or class the namespace merges with (name, length, static
+                    // members) are not identifiers of the body
+                    let exported_key = PropertyKey::String(interp.intern("__ns_exports__"));
+                    let names: Vec<JsString> = match ns_obj.borrow().get_own_property(&exported_key) {
+                        Some(prop) => match &prop.value {
+                            JsValue::String(list) => list
+                                .as_str()
+                                .split('\0')
+                                .filter(|name| !name.is_empty())
+                                .map(JsString::from)
+                                .collect(),
+                            _ => Vec::new(),
+                        },
+                        None => Vec::new(),
+                    };
                     for name in names {
                         let name = interp.intern(name.as_str());
                         interp.env_define_namespace_export(name, ns_obj.cheap_clone());
